@@ -20,6 +20,7 @@ EXPLANATION = (
     "depends on the focus column) is never invalidated through a base class behind that override's back; (3) remainder-defined margins: calculate_left_right_padding / calculate_top_bottom_filler define the last margin as available - size - other margin, and every later adjustment of "
     "the two margins is a sum-preserving pair (+shift / -shift) or the final non-clip clamp; (4) GridFlow: the space budget of the row-wrap test exceeds the row's drawn width by exactly "
     "one separator, i.e. a cell is added to a row only if separator + cell still fit."
+    ' Added after seed round 3: (5) AXIS - placement options reach parameters of their own axis (align/width/left/right vs valign/height/top/bottom) and no argument carries the name of a different parameter; (6) ACCUM - Columns.column_widths charges / refunds its budget for every column it passes.'
 )
 NOT_DECIDED = "Non-negativity of every child dimension, proportionality within one column, focus-column visibility, min-width interaction beyond the ordering clause, alignment rounding - integer-rounding properties over ranges."
 ASSUMPTIONS = []
@@ -233,7 +234,7 @@ def run(ctx: Ctx):
         inv.run_inv_bypass(p, "C19.2c", floor=4),
         rule_margins(ctx),
         rule_gridflow_budget(ctx),
-        axis.run_axis(p, "C19.5", ("urwid.widget",), floor=120),
+        axis.run_axis(p, "C19.5", ("urwid.widget",), floor=60),
         accum.run_accum(p, "C19.6", "C19", floor=2),
     ]
 
